@@ -808,6 +808,21 @@ func genC20(g *Gen, tier string, emit func(op string, args ...string)) {
 		}
 	}
 
+	// ---- a number and the same number with trailing zero components (241, 241.0, 241.0.0) are DIFFERENT numbers, as
+	// are 241.1 and 241.1.0: every pair, top-level and inside a matched vendor, in both directions
+	{
+		oids := [][]int{{241}, {241, 0}, {241, 0, 0}, {241, 1}, {241, 1, 0}, {0}, {0, 0}}
+		for i, o1 := range oids {
+			for j, o2 := range oids {
+				x := gAttr{name: "p" + itoa(i), oid: o1, typ: 1}
+				y := gAttr{name: "q" + itoa(j), oid: o2, typ: 1}
+				emit("merge", gDict{attrs: []gAttr{x}}.String(), gDict{attrs: []gAttr{y}}.String(), "2")
+				emit("merge", gDict{vendors: []gVendor{{name: "V", num: 1, to: "n", lo: "n", attrs: []gAttr{x}}}}.String(),
+					gDict{vendors: []gVendor{{name: "V", num: 1, to: "n", lo: "n", attrs: []gAttr{y}}}}.String(), "2")
+			}
+		}
+	}
+
 	// ---- exhaustive small scope, part 3: <= 2 attributes x <= 2 vendors, well-formed vendor lists only,
 	// one top-level attribute list per side combined with every vendor pair (quick: a slice of it)
 	if thorough {
